@@ -702,6 +702,10 @@ def inline_function(idx: PyIndex, fi: FuncInfo, depth: int = 2, keep=None, types
             m = desugar(ast.Module(body=[fn], type_ignores=[]))
             if len(m.body) == 1 and isinstance(m.body[0], ast.FunctionDef):
                 fn = Canon().visit(m.body[0])
+                if exact and any(isinstance(x, (ast.If, ast.IfExp)) for x in ast.walk(fn)):
+                    folded2 = _Fold(idx, exact).visit(fn)          # dispatch tables unrolled by the desugaring: their tests are decided by the given types
+                    if isinstance(folded2, ast.FunctionDef) and folded2.body:
+                        fn = folded2
                 ast.fix_missing_locations(fn)
                 fn._inlined_any = True
         except RecursionError:      # pragma: no cover
@@ -746,9 +750,49 @@ def inline_fragments(idx: PyIndex, fi: FuncInfo, keep=None, depth: int = 2) -> F
         return fi
     ast.fix_missing_locations(fn)
     from .normalise import Canon
+    folded = _Fold(idx, {}).visit(fn)           # constant arguments decide the helper's own tests
+    if isinstance(folded, ast.FunctionDef) and folded.body:
+        fn = folded
+    fn = _HoistIfExp().visit(fn)                # P + (A if T else B)  ->  (P + A) if T else (P + B): each alternative is one text again
     fn = Canon().visit(fn)
     ast.fix_missing_locations(fn)
     return FuncInfo(fi.module, fi.qualname, fn, fi.cls, fi.kind)
+
+
+class _HoistIfExp(ast.NodeTransformer):
+    """A conditional piece inside a concatenation or an f-string makes the whole text conditional (tests are side-effect free in the code this is used on;
+    at most three conditional pieces per text)."""
+    def visit_BinOp(self, node):
+        self.generic_visit(node)
+        if not isinstance(node.op, ast.Add):
+            return node
+        for side in ('left', 'right'):
+            v = getattr(node, side)
+            if isinstance(v, ast.IfExp) and self._depth(node) <= 3:
+                a, b = copy.deepcopy(node), copy.deepcopy(node)
+                setattr(a, side, v.body)
+                setattr(b, side, v.orelse)
+                out = ast.IfExp(test=v.test, body=self.visit_BinOp(a) if isinstance(a, ast.BinOp) else a, orelse=self.visit_BinOp(b) if isinstance(b, ast.BinOp) else b)
+                return ast.copy_location(out, node)
+        return node
+
+    def visit_JoinedStr(self, node):
+        self.generic_visit(node)
+        for i, v in enumerate(node.values):
+            if isinstance(v, ast.FormattedValue) and isinstance(v.value, ast.IfExp) and v.conversion == -1 and v.format_spec is None and self._depth(node) <= 3:
+                a, b = copy.deepcopy(node), copy.deepcopy(node)
+                a.values[i] = ast.FormattedValue(value=v.value.body, conversion=-1, format_spec=None)
+                b.values[i] = ast.FormattedValue(value=v.value.orelse, conversion=-1, format_spec=None)
+                out = ast.IfExp(test=v.value.test, body=self.visit_JoinedStr(a), orelse=self.visit_JoinedStr(b))
+                for x in ast.walk(out):
+                    if not hasattr(x, 'lineno'):
+                        ast.copy_location(x, node)
+                return ast.copy_location(out, node)
+        return node
+
+    @staticmethod
+    def _depth(node) -> int:
+        return sum(1 for x in ast.walk(node) if isinstance(x, ast.IfExp))
 
 
 def inlined_info(idx: PyIndex, fi: FuncInfo, depth: int = 2, keep=None, types: Optional[Dict[str, str]] = None) -> FuncInfo:
